@@ -36,10 +36,10 @@ func checkRequireJSON(req *protocol.Request, tagInfo TagInfo) bool {
 	if !strings.EqualFold(utils.FilterContentType(ct), consts.MIMEApplicationJSON) {
 		return false
 	}
-	if !jsonKeyExists(req.Body(), tagInfo.JSONName) {
-		idx := strings.LastIndex(tagInfo.JSONName, ".")
+	path := splitJSONName(tagInfo.JSONName)
+	if !jsonKeyExists(req.Body(), path) {
 		// There should be a superior if it is empty, it will report 'true' for required
-		if idx > 0 && !jsonKeyExists(req.Body(), tagInfo.JSONName[:idx]) {
+		if len(path) > 1 && !jsonKeyExists(req.Body(), path[:len(path)-1]) {
 			return true
 		}
 		return false
@@ -47,15 +47,13 @@ func checkRequireJSON(req *protocol.Request, tagInfo TagInfo) bool {
 	return true
 }
 
-// jsonKeyExists looks the dotted name up the way the body decoder fills fields: a key
+// jsonKeyExists looks the names up the way the body decoder fills fields: a key
 // that is spelled exactly like the name, or else one that equals it ignoring case
-// (the rule of encoding/json).
-func jsonKeyExists(body []byte, jsonName string) bool {
-	if gjson.GetBytes(body, jsonName).Exists() {
-		return true
-	}
+// (the rule of encoding/json). The names are compared as they are, not read as a
+// gjson path.
+func jsonKeyExists(body []byte, path []string) bool {
 	cur := gjson.ParseBytes(body)
-	for _, name := range strings.Split(jsonName, ".") {
+	for _, name := range path {
 		if !cur.IsObject() {
 			return false
 		}
@@ -84,5 +82,5 @@ func keyExist(req *protocol.Request, tagInfo TagInfo) bool {
 	if !strings.EqualFold(utils.FilterContentType(ct), consts.MIMEApplicationJSON) {
 		return false
 	}
-	return jsonKeyExists(req.Body(), tagInfo.JSONName)
+	return jsonKeyExists(req.Body(), splitJSONName(tagInfo.JSONName))
 }
